@@ -46,6 +46,11 @@ Fixpoint go_items (f: node -> option fval) (l: list node) : option (list pv) :=
 
 Section Table.
   Variable ct : list cls.
+  Variable nailed : bool.
+  Notation pack_h := (OptNested.pack_h ct nailed).
+  Notation ok_h := (OptNested.ok_h ct nailed).
+  Notation pick := (OptNested.pick ct nailed).
+  Notation dd_of := (OptNested.dd_of nailed).
 
   Definition avail_of (spec: bool) (o: opts) : kwv :=
     if spec then {| kw_on := Some (e_on (eff_of o)); kw_ba := Some (e_ba (eff_of o)); kw_dl := o.(o_call) |}
@@ -57,18 +62,18 @@ Section Table.
     | None => None end.
 
   Lemma pack_h_obj spec cid ch members outer avail pd :
-    pack_h ct spec (NObj cid ch) members outer avail pd =
-    match nth_error ct cid, (if spec then pick_spec ct else pick_impl ct) outer members cid with
+    pack_h spec (NObj cid ch) members outer avail pd =
+    match nth_error ct cid, pick spec outer members cid with
     | Some c, Some fl =>
         let o := opts_of c (restrict fl avail) (dd_of c pd) in
-        match go_pack (fun x m => pack_h ct spec x m c.(c_flags) (avail_of spec o) (pass_dd (dd_of c pd) o.(o_call) c.(c_cfgd)))
+        match go_pack (fun x m => pack_h spec x m c.(c_flags) (avail_of spec o) (pass_dd (dd_of c pd) o.(o_call) c.(c_cfgd)))
                       ch c.(c_fields) with
         | Some vs => finish spec o (map fst c.(c_fields)) vs
         | None => None end
     | _, _ => None end.
   Proof.
     cbn [pack_h]. destruct (nth_error ct cid) as [c|]; [|reflexivity].
-    destruct ((if spec then pick_spec ct else pick_impl ct) outer members cid) as [fl|]; [|reflexivity].
+    destruct (pick spec outer members cid) as [fl|]; [|reflexivity].
     cbv zeta. unfold finish, avail_of.
     set (a := if spec then _ else _).
     match goal with |- match ?g1 with _ => _ end = match ?g2 with _ => _ end => assert (Hg: g1 = g2) end.
@@ -78,8 +83,8 @@ Section Table.
   Qed.
 
   Lemma pack_h_list spec items members outer avail pd :
-    pack_h ct spec (NList items) members outer avail pd =
-    match go_items (fun x => pack_h ct spec x members outer avail pd) items with
+    pack_h spec (NList items) members outer avail pd =
+    match go_items (fun x => pack_h spec x members outer avail pd) items with
     | Some l => Some (POpq (S (List.length items)), PList l)
     | None => None end.
   Proof.
@@ -90,21 +95,21 @@ Section Table.
   Qed.
 
   Lemma ok_h_obj cid ch members outer avail pd :
-    ok_h ct (NObj cid ch) members outer avail pd =
-    match nth_error ct cid, pick_spec ct outer members cid, pick_impl ct outer members cid with
+    ok_h (NObj cid ch) members outer avail pd =
+    match nth_error ct cid, pick true outer members cid, pick false outer members cid with
     | Some c, Some fl, Some fl' =>
         let o := opts_of c (restrict fl avail) (dd_of c pd) in
         let pd' := pass_dd (dd_of c pd) o.(o_call) c.(c_cfgd) in
-        flags_eqb fl fl' && kw_ok o && flag_defaults_ok o &&
-        go_ok (fun x m => ok_h ct x m c.(c_flags) (avail_of true o) pd') ch c.(c_fields) &&
-        match go_pack (fun x m => pack_h ct true x m c.(c_flags) (avail_of true o) pd') ch c.(c_fields) with
+        flags_eqb fl fl' && (nailed || Nat.leb (List.length members) 1) && kw_ok o && flag_defaults_ok o &&
+        go_ok (fun x m => ok_h x m c.(c_flags) (avail_of true o) pd') ch c.(c_fields) &&
+        match go_pack (fun x m => pack_h true x m c.(c_flags) (avail_of true o) pd') ch c.(c_fields) with
         | Some vs => vals_ok (map fst c.(c_fields)) vs
         | None => false end
     | _, _, _ => false end.
   Proof.
     cbn [ok_h]. destruct (nth_error ct cid) as [c|]; [|reflexivity].
-    destruct (pick_spec ct outer members cid) as [fl|]; [|reflexivity].
-    destruct (pick_impl ct outer members cid) as [fl'|]; [|reflexivity].
+    destruct (pick true outer members cid) as [fl|]; [|reflexivity].
+    destruct (pick false outer members cid) as [fl'|]; [|reflexivity].
     cbv zeta. unfold avail_of.
     f_equal; [f_equal|].
     - generalize (c_fields c). induction ch as [|x ch IH]; intros [|[p m] fs]; cbn; try reflexivity.
@@ -116,7 +121,7 @@ Section Table.
   Qed.
 
   Lemma ok_h_list items members outer avail pd :
-    ok_h ct (NList items) members outer avail pd = forallb (fun x => ok_h ct x members outer avail pd) items.
+    ok_h (NList items) members outer avail pd = forallb (fun x => ok_h x members outer avail pd) items.
   Proof. cbn [ok_h]. induction items as [|x r IH]; cbn; [reflexivity | rewrite IH; reflexivity]. Qed.
 
   (* ---- flags ---- *)
@@ -126,9 +131,13 @@ Section Table.
     destruct a1, a2, a3, a4, b1, b2, b3, b4; cbn; intros H; try discriminate; reflexivity.
   Qed.
 
-  Lemma pick_spec_some outer members cid fl :
-    pick_spec ct outer members cid = Some fl -> fl = both outer (flags_c ct cid).
-  Proof. unfold pick_spec. destruct (existsb _ _); congruence. Qed.
+  Lemma pick_true_both outer members cid fl :
+    pick true outer members cid = Some fl -> exists x, fl = both outer x.
+  Proof.
+    unfold OptNested.pick, pick_spec. destruct nailed; destruct (existsb _ _); try discriminate; intros H; inversion H.
+    - eexists; reflexivity.
+    - exists no_flags. destruct outer as [o1 o2 o3 o4]. unfold both, no_flags. cbn. now rewrite !andb_false_r.
+  Qed.
 
   Lemma restrict_both outer x a : restrict (both outer x) a = restrict (both outer x) (restrict outer a).
   Proof.
@@ -151,28 +160,30 @@ Section Table.
   (* ---- the hereditary theorem ---- *)
   Theorem nested_project : forall (n: node) (members: list nat) (outer: flags) (a1 a2: kwv) (pd: option ns),
     restrict outer a1 = restrict outer a2 ->
-    ok_h ct n members outer a2 pd = true ->
-    pack_h ct false n members outer a1 pd = pack_h ct true n members outer a2 pd.
+    ok_h n members outer a2 pd = true ->
+    pack_h false n members outer a1 pd = pack_h true n members outer a2 pd.
   Proof.
     induction n as [raw packed | cid ch IH | items IH] using node_ind'; intros members outer a1 a2 pd Ha Hok.
     - reflexivity.
     - rewrite !pack_h_obj. rewrite ok_h_obj in Hok.
       destruct (nth_error ct cid) as [c|]; [|discriminate].
-      destruct (pick_spec ct outer members cid) as [fl|] eqn:Es; [|discriminate].
-      destruct (pick_impl ct outer members cid) as [fl'|] eqn:Ei; [|discriminate].
+      destruct (pick true outer members cid) as [fl|] eqn:Es; [|discriminate].
+      destruct (pick false outer members cid) as [fl'|] eqn:Ei; [|discriminate].
       cbv zeta in Hok.
       apply andb_true_iff in Hok. destruct Hok as [Hok Hvals].
       apply andb_true_iff in Hok. destruct Hok as [Hok Hch].
       apply andb_true_iff in Hok. destruct Hok as [Hok Hd14].
-      apply andb_true_iff in Hok. destruct Hok as [Hfl Hkw].
+      apply andb_true_iff in Hok. destruct Hok as [Hok Hkw].
+      apply andb_true_iff in Hok. destruct Hok as [Hfl _].
       apply flags_eqb_eq in Hfl. subst fl'.
       assert (Hr: restrict fl a1 = restrict fl a2).
-      { rewrite (pick_spec_some _ _ _ _ Es). rewrite (restrict_both outer _ a1), (restrict_both outer _ a2). now rewrite Ha. }
+      { destruct (pick_true_both _ _ _ _ Es) as [x Hx]. rewrite Hx.
+        rewrite (restrict_both outer _ a1), (restrict_both outer _ a2). now rewrite Ha. }
       cbv zeta. rewrite Hr. set (o := opts_of c (restrict fl a2) (dd_of c pd)) in *.
       pose proof (avail_restrict c _ _ Hkw Hd14) as Hav. fold o in Hav.
       set (pd' := pass_dd (dd_of c pd) (o_call o) (c_cfgd c)) in *.
-      assert (Hgo: go_pack (fun x m => pack_h ct false x m (c_flags c) (avail_of false o) pd') ch (c_fields c)
-                   = go_pack (fun x m => pack_h ct true x m (c_flags c) (avail_of true o) pd') ch (c_fields c)).
+      assert (Hgo: go_pack (fun x m => pack_h false x m (c_flags c) (avail_of false o) pd') ch (c_fields c)
+                   = go_pack (fun x m => pack_h true x m (c_flags c) (avail_of true o) pd') ch (c_fields c)).
       { clear Hvals. revert Hch. generalize (c_fields c).
         induction ch as [|x ch IHch]; intros [|[p m] fs] Hch; cbn in *; try reflexivity; try discriminate.
         apply andb_true_iff in Hch. destruct Hch as [Hx Hrest].
@@ -182,8 +193,8 @@ Section Table.
       destruct (go_pack _ ch (c_fields c)) as [vs|]; [|discriminate].
       unfold finish. rewrite (project_partial o _ vs Hkw Hvals Hd14). reflexivity.
     - rewrite !pack_h_list. rewrite ok_h_list in Hok.
-      assert (Hgo: go_items (fun x => pack_h ct false x members outer a1 pd) items
-                   = go_items (fun x => pack_h ct true x members outer a2 pd) items).
+      assert (Hgo: go_items (fun x => pack_h false x members outer a1 pd) items
+                   = go_items (fun x => pack_h true x members outer a2 pd) items).
       { induction items as [|x r IHr]; cbn in *; [reflexivity|].
         apply andb_true_iff in Hok. destruct Hok as [Hx Hrest].
         inversion IH as [|? ? IHx IHrest]; subst.
@@ -193,23 +204,57 @@ Section Table.
 
   (* no leak: a nested class that enabled none of the keyword flags receives no keyword
      argument, whatever the outer class's options, flags and run-time values are *)
-  Definition no_flags : flags := {| g_on := false; g_ba := false; g_dl := false; g_cx := false |}.
 
   Lemma restrict_no_flags outer a : restrict (both outer no_flags) a = no_kw.
   Proof. destruct outer as [o1 o2 o3 o4]. unfold restrict, both, no_flags. cbn. now rewrite !andb_false_r. Qed.
 
+  Lemma pick_no_flags spec cid : flags_c ct cid = no_flags ->
+    forall out a0, exists fl, pick spec out [cid] cid = Some fl /\ restrict fl a0 = no_kw.
+  Proof.
+    intros Hf out a0. unfold OptNested.pick. destruct nailed.
+    - exists (both out no_flags). split; [|apply restrict_no_flags]. destruct spec.
+      + unfold pick_spec. cbn. rewrite Nat.eqb_refl. cbn. now rewrite Hf.
+      + cbn. rewrite Hf. destruct out as [o1 o2 o3 o4]. unfold both, no_flags, subflags. cbn.
+        now rewrite !andb_false_r.
+    - exists no_flags. cbn. rewrite Nat.eqb_refl. cbn. split; reflexivity.
+  Qed.
+
   Theorem no_leak : forall spec cid ch outer outer' a a' pd,
     flags_c ct cid = no_flags ->
-    pack_h ct spec (NObj cid ch) [cid] outer a pd = pack_h ct spec (NObj cid ch) [cid] outer' a' pd.
+    pack_h spec (NObj cid ch) [cid] outer a pd = pack_h spec (NObj cid ch) [cid] outer' a' pd.
   Proof.
     intros spec cid ch outer outer' a a' pd Hf. rewrite !pack_h_obj.
     destruct (nth_error ct cid) as [c|] eqn:Ec; [|reflexivity].
-    assert (Hp: forall out, (if spec then pick_spec ct else pick_impl ct) out [cid] cid = Some (both out no_flags)).
-    { intros out. destruct spec.
-      - unfold pick_spec. cbn. rewrite Nat.eqb_refl. cbn. now rewrite Hf.
-      - cbn. rewrite Hf. destruct out as [o1 o2 o3 o4]. unfold both, no_flags, subflags. cbn.
-        now rewrite !andb_false_r. }
-    rewrite !Hp. cbv zeta. rewrite !restrict_no_flags. reflexivity.
+    destruct (pick_no_flags spec cid Hf outer a) as [fl [E1 R1]].
+    destruct (pick_no_flags spec cid Hf outer' a') as [fl' [E2 R2]].
+    rewrite E1, E2. cbv zeta. rewrite R1, R2. reflexivity.
+  Qed.
+
+  (* codec path: the call of a nested class names no keyword at all, so EVERY nested class (whatever
+     it enabled) is serialized identically under every owner *)
+  Theorem codec_no_leak : nailed = false -> forall spec cid ch outer outer' a a' pd,
+    pack_h spec (NObj cid ch) [cid] outer a pd = pack_h spec (NObj cid ch) [cid] outer' a' pd.
+  Proof.
+    intros Hn spec cid ch outer outer' a a' pd. rewrite !pack_h_obj.
+    destruct (nth_error ct cid) as [c|] eqn:Ec; [|reflexivity].
+    unfold OptNested.pick. rewrite Hn. cbn. rewrite Nat.eqb_refl. cbn. reflexivity.
+  Qed.
+
+  (* codec path: every class, mixin or plain, runs with its own Config.dialect and Config over the
+     codec's default dialect, without keyword arguments; the same default dialect goes further down *)
+  Theorem codec_obj : nailed = false -> forall spec cid ch outer a pd,
+    pack_h spec (NObj cid ch) [cid] outer a pd =
+    match nth_error ct cid with
+    | Some c =>
+        let o := opts_of c no_kw pd in
+        match go_pack (fun x m => pack_h spec x m c.(c_flags) (avail_of spec o) pd) ch c.(c_fields) with
+        | Some vs => finish spec o (map fst c.(c_fields)) vs
+        | None => None end
+    | None => None end.
+  Proof.
+    intros Hn spec cid ch outer a pd. rewrite pack_h_obj.
+    destruct (nth_error ct cid) as [c|] eqn:Ec; [|reflexivity].
+    unfold OptNested.pick, OptNested.dd_of. rewrite Hn. cbn. rewrite Nat.eqb_refl. cbn. reflexivity.
   Qed.
 
   (* what is passed down is the compiling builder's default dialect, never its Config.dialect or
@@ -219,14 +264,14 @@ Section Table.
   Proof. reflexivity. Qed.
 
   Lemma dd_of_none c : dd_of c None = None.
-  Proof. unfold dd_of. destruct (c_mixin c); reflexivity. Qed.
+  Proof. unfold OptNested.dd_of. destruct nailed, (c_mixin c); reflexivity. Qed.
 
   (* a nested class without keyword flags under a mixin root: its part of the output is a function
      of its own class and instance only -- independent of the outer classes' Config, Config.dialect,
      call dialect, flags and run-time values *)
   Theorem no_leak_root : forall spec cid ch outer outer' a a',
     flags_c ct cid = no_flags ->
-    pack_h ct spec (NObj cid ch) [cid] outer a None = pack_h ct spec (NObj cid ch) [cid] outer' a' None.
+    pack_h spec (NObj cid ch) [cid] outer a None = pack_h spec (NObj cid ch) [cid] outer' a' None.
   Proof. intros. now apply no_leak. Qed.
 
   (* a nested class that set nothing (typically a plain dataclass without Config): under a mixin root
@@ -253,16 +298,14 @@ Section Table.
     nth_error ct cid = Some c -> option_free c ->
     List.length vs = List.length c.(c_fields) ->
     forallb (fun p => negb p.(p_omit)) (map fst c.(c_fields)) = true ->
-    pack_h ct false (NObj cid (map leaf vs)) [cid] outer a None
+    pack_h false (NObj cid (map leaf vs)) [cid] outer a None
     = Some (POpq 0, PDict (dict_of (plain_out (map fst c.(c_fields)) vs))).
   Proof.
     intros cid c vs outer a Hc (Hcd & Hcf & Hs & Hfl) Hlen Hom.
     rewrite pack_h_obj, Hc.
     assert (Hfc: flags_c ct cid = no_flags) by (unfold flags_c; now rewrite Hc).
-    cbn [pick_impl]. rewrite Hfc.
-    assert (Hsub: subflags (both outer no_flags) no_flags = true).
-    { destruct outer as [o1 o2 o3 o4]. unfold both, no_flags, subflags. cbn. now rewrite !andb_false_r. }
-    rewrite Hsub. cbv zeta. rewrite restrict_no_flags, dd_of_none.
+    destruct (pick_no_flags false cid Hfc outer a) as [fl [E1 R1]].
+    rewrite E1. cbv zeta. rewrite R1, dd_of_none.
     assert (Ho: opts_of c no_kw None = plain_opts).
     { unfold opts_of, plain_opts. rewrite Hcd, Hcf, Hs, Hfl. reflexivity. }
     rewrite Ho. rewrite go_pack_leaves; [|intros v m; destruct v; reflexivity | exact Hlen].
@@ -284,10 +327,10 @@ End Table.
 Definition fl_on : flags := {| g_on := true; g_ba := false; g_dl := false; g_cx := false |}.
 Definition fl_none : flags := {| g_on := false; g_ba := false; g_dl := false; g_cx := false |}.
 Definition fld (n: string) : fplan :=
-  {| p_name := n; p_alias := None; p_tynull := true; p_trivial := true; p_default := DVal PNone; p_omit := false |}.
+  {| p_name := n; p_alias := None; p_ty := TyOptional; p_trivial := true; p_default := DVal PNone; p_omit := false |}.
 Definition d8b_ct : list cls :=
   [ {| c_mixin := true; c_cfgd := None; c_cfg := ns_unset; c_sort := false; c_flags := fl_on;      (* 0: Outer(u: Union[A, B]) *)
-       c_fields := [({| p_name := "u"; p_alias := None; p_tynull := false; p_trivial := false; p_default := DNo; p_omit := false |}, [1; 2])] |};
+       c_fields := [({| p_name := "u"; p_alias := None; p_ty := TyPlain; p_trivial := false; p_default := DNo; p_omit := false |}, [1; 2])] |};
     {| c_mixin := true; c_cfgd := None; c_cfg := ns_unset; c_sort := false; c_flags := fl_none; c_fields := [(fld "a", [])] |};   (* 1: A *)
     {| c_mixin := true; c_cfgd := None; c_cfg := ns_unset; c_sort := false; c_flags := fl_on; c_fields := [(fld "b", [])] |} ]%nat.  (* 2: B *)
 Definition d8b_inst : node := NObj 0 [NObj 2 [NLeaf PNone PNone]].
@@ -309,7 +352,14 @@ Proof.
 Qed.
 
 Theorem nested_partial : forall ct n cid k,
-  ok_h ct n [cid] root_flags k None = true -> to_dict_h ct false n cid k = to_dict_h ct true n cid k.
+  ok_h ct true n [cid] root_flags k None = true -> to_dict_h ct false n cid k = to_dict_h ct true n cid k.
 Proof.
-  intros ct n cid k Hok. unfold to_dict_h. now rewrite (nested_project ct n [cid] root_flags k k None eq_refl Hok).
+  intros ct n cid k Hok. unfold to_dict_h. now rewrite (nested_project ct true n [cid] root_flags k k None eq_refl Hok).
+Qed.
+
+(* codec path: BasicEncoder(cls, default_dialect=dd).encode(x) *)
+Theorem codec_partial : forall ct n cid dd,
+  ok_h ct false n [cid] root_flags no_kw dd = true -> to_dict_codec ct false n cid dd = to_dict_codec ct true n cid dd.
+Proof.
+  intros ct n cid dd Hok. unfold to_dict_codec. now rewrite (nested_project ct false n [cid] root_flags no_kw no_kw dd eq_refl Hok).
 Qed.
